@@ -563,7 +563,15 @@ func c01ProductFamilies(thorough bool) []c01Product {
 		{"<a title=", "<a title =", "<a title= "}, {"{{if $.C}}", "{{range $.L}}", "{{with $.W}}"}, {"x", "x ", "\"x\"", "'x' ", ""}, {"{{end}}", "{{else}}y{{end}}", "{{else}}{{end}}", "{{else}}\"y\"{{end}}"},
 		{" class=\"" + S + "\">", " class='" + S + "'>", "class=\"" + S + "\">", ">" + S, " " + S + ">"},
 	}}
-	return append([]c01Product{tag, namesplit, loops, valuestart}, raws...)
+	// a conditional that writes a whole attribute (name, or name and value, with or without the white space after it),
+	// followed by text that is a value or another attribute depending on the branch taken
+	condattr := c01Product{"condattr", [][]string{
+		{"<input ", "<a\t", "<p title=\"t\" "},
+		{"{{if $.C}}checked {{end}}", "{{if $.C}}checked{{end}}", "{{if $.C}} checked {{end}}", "{{if $.C}}checked {{else}} {{end}}", "{{if $.C}}a=b {{end}}", "{{if $.C}}a=\"b\" {{end}}", "{{if $.C}}a=\"b\"{{end}}", "{{if $.C}}checked ={{end}}", "{{if $.C}}{{else}}checked {{end}}"},
+		{"=\"" + S + "\"", "value=\"" + S + "\"", "=" + S, " =\"" + S + "\"", "/=\"" + S + "\"", "\"" + S + "\"", "='" + S + "'", "x=\"" + S + "\""},
+		{">", " >", "/>"},
+	}}
+	return append([]c01Product{tag, namesplit, loops, valuestart, condattr}, raws...)
 }
 
 // c01StateFamily groups tokenizer states by the construct the tokenizer is inside of.
